@@ -199,14 +199,21 @@ def escapeChars : List Char → List Char
 
 def renderString (s : String) : List Char := '"' :: (escapeChars s.toList ++ ['"'])
 
-def natDigits (n : Nat) : List Char := (Nat.repr n).toList
+def digitChar (d : Nat) : Char := Char.ofNat (48 + d)
+
+/-- decimal digits, most significant first (`strconv.AppendUint`) -/
+def natDigits (n : Nat) : List Char :=
+  if n < 10 then [digitChar n] else natDigits (n / 10) ++ [digitChar (n % 10)]
+termination_by n
+decreasing_by omega
+
+def boolChars (b : Bool) : List Char := if b then ['t', 'r', 'u', 'e'] else ['f', 'a', 'l', 's', 'e']
 
 mutual
   /-- the printer: no white space, keys in the given order -/
   def render : Json → List Char
     | .null => ['n', 'u', 'l', 'l']
-    | .bool true => ['t', 'r', 'u', 'e']
-    | .bool false => ['f', 'a', 'l', 's', 'e']
+    | .bool b => boolChars b
     | .num neg m => (if neg then ['-'] else []) ++ natDigits m
     | .frac => ['1', '.', '5']
     | .str s => renderString s
